@@ -78,6 +78,11 @@ def _is_cmp_expr(node, env):
 
 
 class Tr:
+    # the fixed parameters every generated definition takes, and the error type
+    hdr = "{V} (o : VOps V) (perm : List (Con V) → List (Con V))"
+    hargs = "o perm"
+    err = "Err"
+
     def __init__(self, fn):
         self.fn = fn
 
@@ -644,9 +649,8 @@ class Tr:
         return "(" + ", ".join(state) + ")" if len(state) > 1 else (state[0] if state else "()")
 
     def _sig(self, captured, env):
-        fn = self.fn
-        perm = " (perm : List (Con V) → List (Con V))"
-        return perm + "".join(" (%s : %s)" % (n, LEAN_TYPE[env[n]]) for n in captured), " perm" + "".join(" " + n for n in captured)
+        return ("".join(" (%s : %s)" % (n, LEAN_TYPE[env[n]]) for n in captured),
+                " " + self.hargs + "".join(" " + n for n in captured))
 
     def _in_body(self, sty, state, thunk):
         """translate a loop body: returns wrap once more, falling off the end is `next`"""
@@ -695,12 +699,12 @@ class Tr:
         bname = "%s_for%d_body" % (fn.lean_name, k)
         aname = "%s_for%d_after" % (fn.lean_name, k)
         unpack = ("let %s := st\n" % stpat) if state else ""
-        fn.defs.append("/-- body of `for %s in %s:` -/\ndef %s {V} (o : VOps V)%s (item : %s) (st : %s) : Except Err (%s) :=\n%s\n"
-                       % (_src(s.target), _src(s.iter), bname, params, LEAN_TYPE[item_ty], sty, rho_b, _ind(unpack + pre + body)))
+        fn.defs.append("/-- body of `for %s in %s:` -/\ndef %s %s%s (item : %s) (st : %s) : Except ERR (%s) :=\n%s\n".replace("ERR", self.err)
+                       % (_src(s.target), _src(s.iter), bname, self.hdr, params, LEAN_TYPE[item_ty], sty, rho_b, _ind(unpack + pre + body)))
         after = self.block(rest, env, fall)
-        fn.defs.append("/-- the statements after `for %s in %s:` -/\ndef %s {V} (o : VOps V)%s (st : %s) : Except Err (%s) :=\n%s\n"
-                       % (_src(s.target), _src(s.iter), aname, params, sty, self.rho, _ind(unpack + after)))
-        return "pyFor %s %s (%s o%s) (%s o%s)" % (it, self._tuple(state), bname, args, aname, args)
+        fn.defs.append("/-- the statements after `for %s in %s:` -/\ndef %s %s%s (st : %s) : Except ERR (%s) :=\n%s\n".replace("ERR", self.err)
+                       % (_src(s.target), _src(s.iter), aname, self.hdr, params, sty, self.rho, _ind(unpack + after)))
+        return "pyFor %s %s (%s%s) (%s%s)" % (it, self._tuple(state), bname, args, aname, args)
 
     def while_loop(self, s, rest, env, fall):
         fn = self.fn
@@ -721,17 +725,17 @@ class Tr:
         cname = "%s_while%d_cond" % (fn.lean_name, k)
         bname = "%s_while%d_body" % (fn.lean_name, k)
         aname = "%s_while%d_after" % (fn.lean_name, k)
-        fn.defs.append("/-- condition of `while %s:` -/\ndef %s {V} (o : VOps V)%s (st : %s) : Except Err Bool :=\n%s\n"
-                       % (_src(s.test), cname, params, sty, _ind(unpack + (".ok %s" % ct if cpure else ct))))
+        fn.defs.append("/-- condition of `while %s:` -/\ndef %s %s%s (st : %s) : Except Err Bool :=\n%s\n"
+                       % (_src(s.test), cname, self.hdr, params, sty, _ind(unpack + (".ok %s" % ct if cpure else ct))))
         body, rho_b = self._in_body(sty, state, lambda fall_b: self.block(s.body, env, fall_b))
-        fn.defs.append("/-- body of `while %s:` -/\ndef %s {V} (o : VOps V)%s (st : %s) : Except Err (%s) :=\n%s\n"
-                       % (_src(s.test), bname, params, sty, rho_b, _ind(unpack + body)))
+        fn.defs.append("/-- body of `while %s:` -/\ndef %s %s%s (st : %s) : Except Err (%s) :=\n%s\n"
+                       % (_src(s.test), bname, self.hdr, params, sty, rho_b, _ind(unpack + body)))
         after = self.block(rest, env, fall)
-        fn.defs.append("/-- the statements after `while %s:` -/\ndef %s {V} (o : VOps V)%s (st : %s) : Except Err (%s) :=\n%s\n"
-                       % (_src(s.test), aname, params, sty, self.rho, _ind(unpack + after)))
+        fn.defs.append("/-- the statements after `while %s:` -/\ndef %s %s%s (st : %s) : Except Err (%s) :=\n%s\n"
+                       % (_src(s.test), aname, self.hdr, params, sty, self.rho, _ind(unpack + after)))
         # every round of the loops translated here shortens one of these lists: their total length bounds the rounds
         fuel = " + ".join("%s.length" % n for n in lists) + " + 1"
-        return "pyWhile (%s) %s (%s o%s) (%s o%s) (%s o%s)" % (fuel, self._tuple(state), cname, args, bname, args, aname, args)
+        return "pyWhile (%s) %s (%s%s) (%s%s) (%s%s)" % (fuel, self._tuple(state), cname, args, bname, args, aname, args)
 
 
 def _strip_ok(t):
@@ -902,19 +906,19 @@ def _var_types(fdef, params):
     return {k: ("ConOpt" if v == "NoneT" else v) for k, v in types.items()}
 
 
-def translate_function(fdef, lean_name, params, ret, calls, class_defaults=None, src="version_constraint.py"):
+def translate_function(fdef, lean_name, params, ret, calls, class_defaults=None, src="version_constraint.py", tr_class=None):
     fn = Fn(fdef.name, lean_name, params, ret, calls)
-    tr = Tr(fn)
+    tr = (tr_class or Tr)(fn)
     tr.class_defaults = class_defaults or {}
     tr.var_types = _var_types(fdef, params)
     tr.rho = LEAN_TYPE[ret]
     tr.depth = 0
     env = dict(params)
     body = tr.block(fdef.body, env, lambda e: ".error .TypeError  -- falls off the end (returns None)")
-    sig = " (perm : List (Con V) → List (Con V))" + "".join(" (%s : %s)" % (n, LEAN_TYPE[t]) for n, t in params)
+    sig = "".join(" (%s : %s)" % (n, LEAN_TYPE[t]) for n, t in params)
     text = "".join(t + "\n" for t in fn.tables) + "".join(d + "\n" for d in fn.defs)
-    text += ("/-- `%s` of univers/" + src + ", translated -/\ndef %s {V} (o : VOps V)%s : Except Err (%s) :=\n%s\n") % (
-        fdef.name, lean_name, sig, LEAN_TYPE[ret], _ind(body))
+    text += ("/-- `%s` of univers/" + src + ", translated -/\ndef %s %s%s : Except %s (%s) :=\n%s\n") % (
+        fdef.name, lean_name, tr.hdr, sig, tr.err, LEAN_TYPE[ret], _ind(body))
     return text
 
 
